@@ -11,6 +11,7 @@ import warp as wp
 from mujoco_warp._src.collision_core import contact_params
 from mujoco_warp._src.collision_core import write_contact
 from mujoco_warp._src.collision_primitive_core import capsule_capsule
+from mujoco_warp._src.collision_primitive_core import plane_box
 from mujoco_warp._src.collision_primitive_core import plane_capsule
 from mujoco_warp._src.collision_primitive_core import plane_sphere
 from mujoco_warp._src.collision_primitive_core import sphere_capsule
@@ -262,3 +263,12 @@ def k_capsule_capsule(
   pos_out[1] = pos[1]
   normal_out[0] = normal[0]
   normal_out[1] = normal[1]
+
+
+@wp.kernel
+def k_plane_box(plane_normal: wp.vec3, plane_pos: wp.vec3, box_pos: wp.vec3, box_rot: wp.mat33, box_size: wp.vec3, dist_out: wp.array[float], pos_out: wp.array[wp.vec3], normal_out: wp.array[wp.vec3]):
+  dist, pos, n = plane_box(plane_normal, plane_pos, box_pos, box_rot, box_size)
+  for i in range(8):
+    dist_out[i] = dist[i]
+    pos_out[i] = pos[i]
+  normal_out[0] = n
